@@ -456,6 +456,38 @@ func genLocals(r *rand.Rand, p profile, u Universe, cur Cluster) []LObj {
 			l.Deps = append(l.Deps, l.Deps[0]) // duplicate
 		}
 	}
+	// a three-layer chain under a mutation-spelled object (a; b on a; c, mutation-spelled, on b and a): the one shape
+	// in which the source a can be reported again (while b is waited for) before the mutator of c looks it up
+	if chance(r, 0.12) {
+		var cs, others []int
+		for k, l := range ls {
+			if l.FInv || !u[l.ID].Referable() {
+				continue
+			}
+			if u[l.ID].Mut {
+				cs = append(cs, k)
+			}
+			others = append(others, k)
+		}
+		if len(cs) > 0 && len(others) >= 3 {
+			c := cs[r.Intn(len(cs))]
+			var ab []int
+			for _, k := range others {
+				if k != c && pos[ls[k].ID] < pos[ls[c].ID] {
+					ab = append(ab, k)
+				}
+			}
+			if len(ab) >= 2 {
+				r.Shuffle(len(ab), func(i, j int) { ab[i], ab[j] = ab[j], ab[i] })
+				a, b := ab[0], ab[1]
+				if pos[ls[a].ID] > pos[ls[b].ID] {
+					a, b = b, a
+				}
+				ls[b].Deps = []int{ls[a].ID}
+				ls[c].Deps = []int{ls[b].ID, ls[a].ID}
+			}
+		}
+	}
 	for k := range ls {
 		if chance(r, p.pBadGraph/3) {
 			ls[k].BadDep, ls[k].Deps = true, nil
